@@ -452,13 +452,24 @@ mod builtins {
                     None => (0, lower),
                 };
 
+                // `start - end` and `-step` do not necessarily fit an isize
+                // (eg: `range(isize::MAX, -1, -1)` or a step of `isize::MIN`),
+                // so the length is calculated with wider integers.
+                let (start, end, step) = (start as i128, end as i128, step as i128);
                 let len = if start <= end {
                     0
                 } else {
-                    ((start - end + (-step) - 1) / (-step)) as usize
+                    (start - end + (-step) - 1) / (-step)
                 };
+                if len > 100000 {
+                    return Err(Error::new(
+                        ErrorKind::InvalidOperation,
+                        "range has too many elements",
+                    ));
+                }
 
-                let iter = (0..len).map(move |i| start + (i as isize) * step);
+                // every element lies between `end` and `start`
+                let iter = (0..len as usize).map(move |i| (start + (i as i128) * step) as isize);
                 to_result(iter)
             }
         }
